@@ -245,4 +245,6 @@ static void generate(Rng &rng, const Opts &o, std::vector<std::string> &lines) {
     lines.push_back("amg_build 9 1 1 2 1 10 0 1 1 1 0 1 0");                    // unknown coarsening kind
 }
 
+#ifndef VH_NO_MAIN
 VH_MAIN(generate, execute)
+#endif
